@@ -54,6 +54,8 @@ MUTANTS = [
     ("write-cache-mtime-before-data-write", "C04", "proto.write_cache", "mypy/build.py", "    st = manager.get_stat(path)\n    if st is None:\n        manager.log(f\"Cannot get stat for {path}\")", "    try:\n        data_mtime = manager.getmtime(data_file)\n    except OSError:\n        data_mtime = 0\n    st = manager.get_stat(path)\n    if st is None:\n        manager.log(f\"Cannot get stat for {path}\")", "violation"),
     ("scc-meta-ex-skipped-when-no-errors", "C04", "proto.scc.meta", "mypy/build.py", "        write_cache_meta_ex(meta_file, meta_ex, manager)\n        manager.commit_module(meta_file)\n    manager.done_sccs.add(ascc.id)\n    manager.add_stats(\n        load_missing_time=t1 - t0,", "        if meta_ex.error_lines or indirect:\n            write_cache_meta_ex(meta_file, meta_ex, manager)\n        manager.commit_module(meta_file)\n    manager.done_sccs.add(ascc.id)\n    manager.add_stats(\n        load_missing_time=t1 - t0,", "violation"),
     ("sqlite-autocommit", "C04", "sqlite", "mypy/metastore.py", "db = sqlite3.dbapi2.connect(db_file, check_same_thread=False)", "db = sqlite3.dbapi2.connect(db_file, check_same_thread=False, isolation_level=None)", "violation"),
+    ("validate-meta-stub-kind-check-dropped", "C02", "validate_meta", "mypy/build.py", 'if path.endswith(".pyi") != meta.path.endswith(".pyi") and not fine_grained_cache:', 'if False and not fine_grained_cache:', "violation"),
+    ("find-meta-length-check-dropped", "C02", "find_cache_meta", "mypy/build.py", "if len(meta) < 2 or meta[0] != cache_version()", "if meta[0] != cache_version()", "violation"),
     ("enabled-parent-check-dropped", "C13", "is_error_code_enabled", "mypy/errors.py", "elif error_code.sub_code_of is not None and error_code.sub_code_of in current_mod_disabled:\n            return False", "elif error_code.sub_code_of is not None and error_code.sub_code_of in current_mod_enabled:\n            return False", "violation"),
 ]
 
